@@ -94,6 +94,9 @@ func c02RunBatch(m *vk.M, b int, racing bool) {
 	}
 	bc.MaxConns = []int{1, 2, 5, 16, 0, -1}[r.Intn(6)] // <= 0: unlimited
 	bc.MaxBytes = int64(1 + r.Intn(4096))
+	if b%3 == 0 { // the smallest limits that are limits: 1 (every third batch alternates 1 / 2)
+		bc.MaxBytes = int64(1 + (b/3)%2)
+	}
 	short := time.Duration(bc.ShortMs) * time.Millisecond
 	var fastOpt, shortOpt time.Duration
 	switch r.Intn(3) {
